@@ -42,6 +42,8 @@ type World struct {
 	// Secondary: the fixture repeats another one under a different context selector (path-regex value, ...); in the
 	// quick tier its leaves get the core payloads only
 	Secondary bool
+	// CoveredBy: a fixture whose (non-empty) fields got their full payload set already; here they get the context set (quick tier)
+	CoveredBy string
 	Objs     []Obj // application order: policies first, then VSR after VS etc. is handled by the runner
 }
 
@@ -450,6 +452,23 @@ func ingWorld(plus bool, variant string, regex string) *World {
 			a["nginx.com/jwt-login-url"] = "https://login.example.com/a"
 		}
 	}
+	if variant == "challenge" {
+		// context selector: a cert-manager HTTP01 solver Ingress (label) whose host no VirtualServer owns is configured as
+		// an ordinary Ingress, with all of its annotations
+		w.Secondary = true
+		ing.Labels = map[string]string{"acme.cert-manager.io/http01-solver": "true"}
+		ing.Spec.TLS = nil
+		ing.Spec.Rules = ing.Spec.Rules[:1]
+		ing.Spec.Rules[0].HTTP.Paths = ing.Spec.Rules[0].HTTP.Paths[:1]
+		for k, v := range map[string]string{"nginx.org/client-max-body-size": "4m", "nginx.org/proxy-buffers": "4 8k", "nginx.org/proxy-buffer-size": "8k",
+			"nginx.org/proxy-hide-headers": "X-Powered-By,Server", "nginx.org/proxy-pass-headers": "Date", "nginx.org/limit-req-rate": "10r/s",
+			"nginx.org/limit-req-key": "${binary_remote_addr}", "nginx.org/limit-req-zone-size": "10m", "nginx.org/rewrites": "serviceName=svc1 rewrite=/beans/",
+			"nginx.org/lb-method": "least_conn", "nginx.org/upstream-zone-size": "512k", "nginx.org/proxy-connect-timeout": "30s", "nginx.org/server-tokens": "false",
+			"nginx.org/proxy-set-headers": "X-Val: abc", "nginx.org/basic-auth-secret": "htpasswd", "nginx.org/basic-auth-realm": "Cafe App"} {
+			a[k] = v
+		}
+		w.ExtraAnn = []string{"nginx.org/location-snippets", "nginx.org/server-snippets"}
+	}
 	if regex != "" {
 		// context selector: the value of nginx.org/path-regex changes how every location path is rendered
 		a["nginx.org/path-regex"] = regex
@@ -487,6 +506,7 @@ func mergeableWorld(plus bool) *World {
 	m1.Spec = networking.IngressSpec{IngressClassName: ptr("nginx"), Rules: []networking.IngressRule{{Host: "merge.example.com",
 		IngressRuleValue: networking.IngressRuleValue{HTTP: &networking.HTTPIngressRuleValue{Paths: []networking.HTTPIngressPath{
 			{Path: "/m1", PathType: &prefix, Backend: backend("svc1", 80, "")}}}}}}}
+	m1.Labels = map[string]string{"acme.cert-manager.io/http01-solver": "true"} // a solver Ingress that is a minion is configured as a minion
 	m2 := &networking.Ingress{ObjectMeta: meta("minion2")}
 	m2.Annotations = map[string]string{"nginx.org/mergeable-ingress-type": "minion", "nginx.org/websocket-services": "svc2", "nginx.org/proxy-buffers": "2 4k",
 		"nginx.org/rewrites": "serviceName=svc2 rewrite=/m2r/;serviceName=svc3 rewrite=/", "nginx.org/path-regex": "exact", "nginx.org/lb-method": "least_conn",
@@ -505,6 +525,50 @@ func mergeableWorld(plus bool) *World {
 	return w
 }
 
+// vsWorldPart keeps one half of the routes of vsWorld (and the policies that half refers to)
+func vsWorldPart(plus bool, part string) *World {
+	w := vsWorld(plus)
+	var vs *conf_v1.VirtualServer
+	for _, o := range w.Objs {
+		if x, ok := o.Val.(*conf_v1.VirtualServer); ok {
+			vs = x
+		}
+	}
+	if part == "a" {
+		vs.Spec.Routes = vs.Spec.Routes[:6]
+	} else {
+		vs.Spec.Routes = vs.Spec.Routes[6:]
+	}
+	used := map[string]bool{}
+	for _, p := range vs.Spec.Policies {
+		used[p.Name] = true
+	}
+	for _, r := range vs.Spec.Routes {
+		for _, p := range r.Policies {
+			used[p.Name] = true
+		}
+	}
+	var objs []Obj
+	for _, o := range w.Objs {
+		switch x := o.Val.(type) {
+		case *conf_v1.Policy:
+			if !used[x.Name] && !(part == "b" && x.Name == "rl") { // rl: referenced by the VirtualServerRoute
+				continue
+			}
+		case *conf_v1.VirtualServerRoute:
+			if part == "a" {
+				continue
+			}
+		}
+		objs = append(objs, o)
+	}
+	w.Objs = objs
+	if part == "b" {
+		w.CoveredBy = "vs-rich-a"
+	}
+	return w
+}
+
 // Fixture is a named world builder.
 type Fixture struct {
 	Name  string
@@ -512,7 +576,10 @@ type Fixture struct {
 }
 
 var fixtures = []Fixture{
-	{"vs-rich", vsWorld},
+	// the rich VirtualServer in two halves (first six routes / the other routes and the VirtualServerRoute): every
+	// rendering is half as long, and the fields of the second half that the first one has get the context payloads there
+	{"vs-rich-a", func(p bool) *World { return vsWorldPart(p, "a") }},
+	{"vs-rich-b", func(p bool) *World { return vsWorldPart(p, "b") }},
 	{"vs-small", vs2World},
 	{"ts-tcp", func(p bool) *World { return tsWorld(p, "tcp") }},
 	{"ts-udp", func(p bool) *World { return tsWorld(p, "udp") }},
@@ -522,6 +589,7 @@ var fixtures = []Fixture{
 	{"ing-a-exact", func(p bool) *World { return ingWorld(p, "a", "exact") }},
 	{"ing-a-cs", func(p bool) *World { return ingWorld(p, "a", "case_sensitive") }},
 	{"ing-a-ci", func(p bool) *World { return ingWorld(p, "a", "case_insensitive") }},
+	{"ing-challenge", func(p bool) *World { return ingWorld(p, "challenge", "") }},
 	{"mergeable", mergeableWorld},
 	{"vs-cross-prefix", func(p bool) *World { return vsCrossWorld(p, "prefix") }},
 	{"vs-cross-regex", func(p bool) *World { return vsCrossWorld(p, "regex") }},
@@ -557,7 +625,9 @@ func vsCrossWorld(plus bool, only string) *World {
 	}
 	pass := func(up string) *conf_v1.Action { return &conf_v1.Action{Pass: up} }
 	splits := func(up string) []conf_v1.Split {
-		return []conf_v1.Split{{Weight: 40, Action: pass(up)}, {Weight: 30, Action: proxy("u-tls")}, {Weight: 20, Action: redirect()}, {Weight: 10, Action: ret()}}
+		// a split may have weight 0 (switched off): its location is generated all the same
+		return []conf_v1.Split{{Weight: 40, Action: pass(up)}, {Weight: 30, Action: proxy("u-tls")}, {Weight: 20, Action: redirect()}, {Weight: 10, Action: ret()},
+			{Weight: 0, Action: proxy(up)}, {Weight: 0, Action: redirect()}, {Weight: 0, Action: ret()}}
 	}
 	cond := func(v string) []conf_v1.Condition { return []conf_v1.Condition{{Header: "x-sel", Value: v}} }
 	matches := func(up string) []conf_v1.Match {
@@ -565,7 +635,8 @@ func vsCrossWorld(plus bool, only string) *World {
 			{Conditions: cond("a"), Action: proxy(up)},
 			{Conditions: cond("b"), Action: redirect()},
 			{Conditions: cond("c"), Action: ret()},
-			{Conditions: cond("d"), Splits: []conf_v1.Split{{Weight: 50, Action: pass(up)}, {Weight: 50, Action: proxy(up)}}},
+			{Conditions: cond("d"), Splits: []conf_v1.Split{{Weight: 50, Action: pass(up)}, {Weight: 50, Action: proxy(up)},
+				{Weight: 0, Action: proxy(up)}, {Weight: 0, Action: ret()}}},
 		}
 	}
 	// path of kind k with a distinguishing tail
